@@ -9,7 +9,7 @@ confirmed from pywt.Wavelet(name).orthogonal, otherwise the case is outside the 
 """
 import numpy as np
 
-from vf.common import structured, Plan, relayout, crandn, held, violated, inconclusive, rng_for, nrm, inner, pick
+from vf.common import vary_seq, structured, Plan, relayout, crandn, held, violated, inconclusive, rng_for, nrm, inner, pick
 
 SPEC = {
     "deciding_monitors": ["fn:fwt", "fn:iwt", "apply:Wavelet", "in:layout:F", "in:layout:strided", "in:complex64", "in:float32"],
@@ -126,7 +126,9 @@ def run_one(case):
     with warnings.catch_warnings():
         warnings.simplefilter("ignore")
         try:
-            W = sp.linop.Wavelet(shape, axes=axes, wave_name=name, level=level)
+            at_ = (sum(case["rs"]) // 5) % 4
+            W = sp.linop.Wavelet(vary_seq(shape, at_), axes=vary_seq(axes, at_), wave_name=name,
+                                 level=level)
             with structured((sum(case["rs"]) // 3) % 9 if sum(case["rs"]) % 2 else 0):
                 x0_ = crandn(rng, shape, dt if dt.kind != "i" else np.float64)
             if dt.kind == "i":
@@ -144,7 +146,7 @@ def run_one(case):
                 c = W(x)
                 back = W.H(c)
             else:
-                c = sp.fwt(x, wave_name=name, axes=axes, level=level)
+                c = sp.fwt(x, wave_name=name, axes=vary_seq(axes, at_), level=level)
                 _, slices = sp.wavelet.get_wavelet_shape(shape, name, axes, level)
                 back = sp.iwt(c, shape, slices, wave_name=name, axes=axes, level=level)
             y = crandn(rng, tuple(W.oshape), dt if dt.kind != "i" else np.float64)
